@@ -65,6 +65,16 @@ def fallible_sites(F, f, **kw):
     return seen, paths, None
 
 
+def site_dest_ty(F, site):
+    """type of the value the call at `site` returns (the terminator's destination)"""
+    fn_def, b = site[-1]
+    g = F.identity(fn_def)
+    if g is None:
+        return None
+    t = g["blocks"][b]["term"]
+    return (t.get("dest") or {}).get("ty")
+
+
 def site_label(f, site, what, sites):
     """stable label: callee + ordinal among the same callee's sites in this function (no line numbers)"""
     same = [s for s, w in sites if w == what]
